@@ -147,6 +147,17 @@ def build(spec):
         return EnsembleForecaster(
             [("m%d" % i, build(m)) for i, m in enumerate(spec["members"])],
             n_jobs=spec.get("n_jobs"), aggfunc=spec.get("aggfunc", "mean"))
+    if k == "online":
+        from sktime.forecasting.online_learning import (
+            NNLSEnsemble, NormalHedgeEnsemble, OnlineEnsembleForecaster)
+        algo = None
+        if spec.get("algo") == "nnls":
+            algo = NNLSEnsemble(n_estimators=len(spec["members"]))
+        elif spec.get("algo") == "hedge":
+            from sklearn.metrics import mean_squared_error
+            algo = NormalHedgeEnsemble(n_estimators=len(spec["members"]), loss_func=mean_squared_error)
+        return OnlineEnsembleForecaster([("m%d" % i, build(m)) for i, m in enumerate(spec["members"])],
+                                        ensemble_algorithm=algo)
     if k == "ttf":
         from sktime.forecasting.compose import TransformedTargetForecaster
         steps = [("t%d" % i, build_transformer(t)) for i, t in enumerate(spec["transformers"])]
@@ -221,8 +232,13 @@ def build_transformer(spec):
         return TabularToSeriesAdaptor(inner)
     if k == "optional":
         from sktime.transformations.series.compose import OptionalPassthrough
-        return OptionalPassthrough(build_transformer(spec["transformer"]),
-                                   passthrough=spec.get("passthrough", False))
+        flag = spec.get("passthrough", False)
+        # the flag as it comes out of a numpy array / a 0-1 column of a parameter table
+        if spec.get("flag_as") == "numpy":
+            flag = np.bool_(flag)
+        elif spec.get("flag_as") == "int":
+            flag = int(flag)
+        return OptionalPassthrough(build_transformer(spec["transformer"]), passthrough=flag)
     if k == "imputer":
         from sktime.transformations.series.impute import Imputer
         return Imputer(method=spec.get("method", "drift"))
@@ -255,6 +271,9 @@ def build_cv(spec):
                                        start_with_window=spec.get("start_with_window", True))
     if t == "single":
         return SingleWindowSplitter(fh=fh, window_length=spec.get("window"))
+    if t == "cutoff":
+        from sktime.forecasting.model_selection import CutoffSplitter
+        return CutoffSplitter(np.array(spec["cutoffs"]), fh=fh, window_length=spec["window"])
     raise ValueError(t)
 
 
@@ -268,8 +287,8 @@ def needs_fh_at_fit(spec):
         return spec["strategy"] in FH_AT_FIT
     if k == "stack":
         return True
-    if k in ("ensemble", "mux"):
-        ms = spec["members"] if k == "ensemble" else [spec["members"][spec["selected"]]]
+    if k in ("ensemble", "mux", "online"):
+        ms = spec["members"] if k != "mux" else [spec["members"][spec["selected"]]]
         return any(needs_fh_at_fit(m) for m in ms)
     if k == "ttf":
         return needs_fh_at_fit(spec["forecaster"])
@@ -304,7 +323,7 @@ def min_train_len(spec, max_fh):
         return max(12, 2 * spec.get("sp", 1) + 4)
     if k == "reduce":
         return spec["window_length"] + max_fh + 3
-    if k in ("ensemble", "mux", "stack"):
+    if k in ("ensemble", "mux", "stack", "online"):
         base = max(min_train_len(m, max_fh) for m in spec["members"])
         return base + (max_fh + 1 if k == "stack" else 0)
     if k == "ttf":
@@ -334,6 +353,7 @@ def class_names(spec, out=None):
              "expsm": "forecasting.exp_smoothing.ExponentialSmoothing",
              "ets": "forecasting.ets.AutoETS", "theta": "forecasting.theta.ThetaForecaster",
              "ensemble": "forecasting.compose.EnsembleForecaster",
+             "online": "forecasting.online_learning.OnlineEnsembleForecaster",
              "ttf": "forecasting.compose.TransformedTargetForecaster",
              "stack": "forecasting.compose.StackingForecaster",
              "mux": "forecasting.compose.MultiplexForecaster",
@@ -431,7 +451,8 @@ def gen_transformer(rng, invertible=True):
     inner = gen_transformer(rng)
     while inner["kind"] == "optional":
         inner = gen_transformer(rng)
-    return {"kind": "optional", "transformer": inner, "passthrough": rng.random() < 0.4}
+    return {"kind": "optional", "transformer": inner, "passthrough": rng.random() < 0.4,
+            "flag_as": rng.choice([None, None, "numpy", "int"])}
 
 
 def gen_forecaster(rng, depth=2, allow_slow=True, kinds=("ensemble", "ttf", "stack", "mux")):
